@@ -961,7 +961,7 @@ func TestC03(t *testing.T) {
 	}
 	r.targets(g)
 
-	nBase := hx.N(60, 450) // base claims per type
+	nBase := hx.N(60, 800) // base claims per type
 	for _, k := range ks {
 		for i := 0; i < nBase; i++ {
 			out.Reset(k.tag)
